@@ -4,6 +4,8 @@ import (
 	"fmt"
 	"testing"
 
+	"github.com/256dpi/gomqtt/packet"
+
 	"verif/sim/core"
 	"verif/sim/rt"
 )
@@ -20,6 +22,23 @@ func init() {
 func expandC11(_ *testing.T, seed uint64, tier string) []*core.Plan {
 	r := core.NewRand(core.Derive(seed, "plan"))
 	p := &core.Plan{Check: "C11", Seed: seed}
+	if seed%7 == 3 {
+		// race: SUBSCRIBE packets and retained publishes on matching topics are
+		// in flight together, backend calls are held at the gate and released in
+		// seeded order. "At every moment" the retained set is the latest retained
+		// publish: whichever way a subscription and a publish are ordered, the
+		// subscriber sees that publish - replayed or live - and ends up knowing
+		// the final retained value of every topic its filter matches.
+		p.SetKnob("race", 1)
+		p.SetKnob("chunk", r.Pick(0, 0, -1))
+		p.SetKnob("gate", r.Pick(1, 1, 0))
+		p.Yield = r.Pick(0, 4, 8)
+		p.SetKnob("subs", r.Range(1, 3))
+		p.SetKnob("pubs", r.Range(1, 4))
+		p.SetKnob("pre", r.Intn(2)) // an older retained value exists beforehand
+		p.SetKnob("qos", r.Intn(3))
+		return []*core.Plan{p}
+	}
 	nslots := r.Range(1, 5)
 	p.SetKnob("chunk", r.Pick(0, 0, -1, 3))
 	tag := 0
@@ -138,11 +157,16 @@ func runC11(t *testing.T, p *core.Plan) *core.Result {
 	cfg := DefaultConfig()
 	cfg.Chunk = p.Knob("chunk", 0)
 	cfg.ParPublishes, cfg.ParSubscribes = 128, 128
+	cfg.GateBackend = p.Knob("race", 0) == 1 && p.Knob("gate", 0) == 1
 	var w *World
 	ptxt := core.Bubble(t, p.Seed, p.Yield, func() {
 		w = NewWorld(cfg, p.Seed, res)
 		sl := NewSlots(w)
-		runStrict(w, sl, p, res, "C11")
+		if p.Knob("race", 0) == 1 {
+			runRetainedRace(w, p, res)
+		} else {
+			runStrict(w, sl, p, res, "C11")
+		}
 		if leaks := w.Teardown(); len(leaks) > 0 {
 			res.Violate("C11", "C11.leak", leaks[0], fmt.Sprintf("%d goroutines still alive after teardown: %v", len(leaks), leaks))
 		}
@@ -156,9 +180,80 @@ func runC11(t *testing.T, p *core.Plan) *core.Result {
 		res.Hash, res.Events, res.Steps = w.Log.Hash(), w.Log.N, w.Steps
 		res.Sched = w.Log.Hash()
 	}
-	res.Nontrivial = res.Counters["retained_replays_expected"] > 0 || res.Counters["wills_expected"] > 0
+	res.Nontrivial = res.Counters["retained_replays_expected"] > 0 || res.Counters["wills_expected"] > 0 || res.Counters["retained_races"] > 0
 	if p.Seed%53 == 0 {
 		res.Sample = p.Brief(14)
 	}
 	return res
+}
+
+// runRetainedRace: subscriptions racing retained publishes on one topic.
+func runRetainedRace(w *World, p *core.Plan, res *core.Result) {
+	const topic = "r/t"
+	qos := packet.QOS(p.Knob("qos", 0))
+	connect := func(cid string) *Peer {
+		pr := w.NewPeer(cid)
+		c := packet.NewConnect()
+		c.ClientID, c.CleanSession = cid, true
+		pr.Send(c)
+		return pr
+	}
+	pub := connect("rp")
+	var subs []*Peer
+	for i := 0; i < p.Knob("subs", 1); i++ {
+		subs = append(subs, connect(fmt.Sprintf("rs%d", i)))
+	}
+	w.Settle()
+	retained := func(tag int) {
+		pb := packet.NewPublish()
+		pb.Message = packet.Message{Topic: topic, QOS: qos, Retain: true, Payload: MsgPayload(tag, 0)}
+		if qos > 0 {
+			pb.ID = pub.NextID()
+		}
+		pub.Send(pb)
+	}
+	last := 0
+	if p.Knob("pre", 0) == 1 {
+		last = 1
+		retained(last)
+		w.Settle()
+	}
+	// the race: everything is sent before anything is delivered
+	np := p.Knob("pubs", 1)
+	for i := 0; i < np; i++ {
+		last = 10 + i
+		retained(last)
+	}
+	filters := []string{"r/t", "r/+", "r/#", "#"}
+	for i, s := range subs {
+		sp := packet.NewSubscribe()
+		sp.ID = s.NextID()
+		sp.Subscriptions = []packet.Subscription{{Topic: filters[(i+int(p.Seed))%len(filters)], QOS: 2}}
+		s.Send(sp)
+	}
+	w.Nudge(2 + w.Sched.Intn(12))
+	w.Settle()
+	res.Count("retained_races", 1)
+	for _, s := range subs {
+		// what the subscriber knows about the topic in the end: the last message
+		// it received for it (replayed or live)
+		known, seen := -1, map[int]int{}
+		for _, e := range s.Recv {
+			if q, ok := e.P.(*packet.Publish); ok && q.Message.Topic == topic {
+				known = TagOf(q.Message.Payload)
+				seen[known]++
+			}
+		}
+		// (arrival order is not judged: a replay travels through the temporary
+		// queue, live QoS>0 copies through the stored queue)
+		_ = known
+		if last != 0 && seen[last] == 0 {
+			res.Violate("C11", "C11.retained-race", "stale", fmt.Sprintf("a subscription raced %d retained publishes on %s: the retained value is #%d, the subscriber received %v - the latest retained publish reached it neither live nor as a replay", np, topic, last, seen))
+		}
+		for tag, n := range seen {
+			if n > 1 {
+				res.Violate("C11", "C11.retained-race", "twice", fmt.Sprintf("retained publish #%d reached the racing subscriber %d times (live and replayed)", tag, n))
+			}
+		}
+	}
 }
